@@ -39,7 +39,7 @@ P = {
     "streams": [{
         "name": "histories", "pkg": "./internal/rules/mechanisms", "test": "TestVerifC11",
         "overlay": OVERLAY, "eval_module": "Run.Eval_C11", "check_term": "check fx_all",
-        "n_quick": 600, "n_thorough": 6000, "shard": 44,
+        "n_quick": 500, "n_thorough": 6000, "shard": 44,
         "findings": {4: "C11-F4", 6: "C11-F6", 7: "C11-F7"},
     }, {
         "name": "keys", "pkg": "./internal/rules/mechanisms", "test": "TestVerifC11Keys",
